@@ -214,6 +214,20 @@ def build_scenarios(T, base, tier, serial_T=None):
     S.append(Scn("rdsquashfs-cat-big-file", "rdsquashfs", T, os.path.join(base, "s12g"), prep_bigimg,
                  lambda b, out: [T["rdsquashfs"], "-c", "big.bin", os.path.join(b, "img.sqfs")], "stdout"))
 
+    # S12h: one file inode whose block-size list (2304 entries = 9216 bytes, written in chunks of 128) is longer than a metadata block: the
+    #       block boundary falls into a chunk that is not the last one
+    def prep_manyblocks(b):
+        root = os.path.join(b, "root")
+        os.makedirs(os.path.join(root, "images"))
+        with open(os.path.join(root, "images", "disk.img"), "wb") as f:
+            f.truncate(9 * 1024 * 1024)
+            for off in (0, 5 * 4096 + 17, 1100 * 4096, 2303 * 4096):
+                f.seek(off)
+                f.write(content_pattern("blk%d" % off, 600))
+        open(os.path.join(root, "readme"), "wb").write(b"small\n")
+    S.append(Scn("gensquashfs-many-blocks-inode", "gensquashfs", T, os.path.join(base, "s12h"), prep_manyblocks,
+                 lambda b, out: [T["gensquashfs"], "-q", "-b", "4096", "-j", "1", "-c", "gzip", "-D", os.path.join(b, "root"), out], "image", packer=True))
+
     # S13: rdsquashfs xattr dump and stat (xattr reader, id table)
     S.append(Scn("rdsquashfs-xattr", "rdsquashfs", T, os.path.join(base, "s13"), prep_img,
                  lambda b, out: [T["rdsquashfs"], "-x", "x", os.path.join(b, "img.sqfs")], "stdout"))
